@@ -1,39 +1,22 @@
 // scratch probes against the real API (no harness model in the loop)
-use automerge::transaction::Transactable;
 use automerge::*;
 
 fn main() {
-    // hypothesis: historical length of a text whose element was overwritten by put()
-    let mut d = AutoCommit::new();
-    let t = d.put_object(ROOT, "t", ObjType::Text).unwrap();
-    d.splice_text(&t, 0, 0, "hello").unwrap();
-    d.commit();
-    d.put(&t, 0, "x").unwrap();
-    d.commit();
-    let h1 = d.get_heads();
-    println!("now: text={:?} length={}", d.text(&t).unwrap(), d.length(&t));
-    d.splice_text(&t, 5, 0, "!").unwrap();
-    d.commit();
-    println!("at h1: text_at={:?} length_at={}", d.text_at(&t, &h1).unwrap(), d.length_at(&t, &h1));
-    let f = d.fork_at(&h1).unwrap();
-    println!("fork_at(h1): text={:?} length={}", f.text(&t).unwrap(), f.length(&t));
-    for i in 0..6 {
-        println!("  get_all_at({i}) = {:?}", d.get_all_at(&t, i, &h1).unwrap().iter().map(|x| format!("{}", x.0)).collect::<Vec<_>>());
+    let a = std::fs::read("/verif/out/dump/a.bin").unwrap();
+    let b = std::fs::read("/verif/out/dump/b.bin").unwrap();
+    for enc in [TextEncoding::UnicodeCodePoint, TextEncoding::Utf8CodeUnit, TextEncoding::Utf16CodeUnit, TextEncoding::GraphemeCluster] {
+        let mut x = AutoCommit::load_with_options(&a, LoadOptions::new().text_encoding(enc)).unwrap();
+        let mut y = AutoCommit::load_with_options(&b, LoadOptions::new().text_encoding(enc)).unwrap();
+        let r = std::panic::catch_unwind(std::panic::AssertUnwindSafe(|| x.merge(&mut y).map(|h| h.len())));
+        println!("{enc:?}: merge a<-b: {:?}", r.map_err(|_| "PANIC"));
+        let mut x = AutoCommit::load_with_options(&a, LoadOptions::new().text_encoding(enc)).unwrap();
+        let mut y = AutoCommit::load_with_options(&b, LoadOptions::new().text_encoding(enc)).unwrap();
+        let cs = y.get_changes(&x.get_heads());
+        println!("   {} changes to apply", cs.len());
+        for c in cs {
+            let h = c.hash();
+            let r = std::panic::catch_unwind(std::panic::AssertUnwindSafe(|| x.apply_changes([c]).is_ok()));
+            println!("   apply {h}: {:?}", r.map_err(|_| "PANIC"));
+        }
     }
-    // two concurrent overwrites
-    let mut a = AutoCommit::new();
-    let t = a.put_object(ROOT, "t", ObjType::Text).unwrap();
-    a.splice_text(&t, 0, 0, "hello").unwrap();
-    a.commit();
-    let mut b = a.fork();
-    a.put(&t, 0, "A").unwrap();
-    b.put(&t, 0, "B").unwrap();
-    a.commit();
-    b.commit();
-    a.merge(&mut b).unwrap();
-    let h = a.get_heads();
-    println!("conflicted now: text={:?} length={}", a.text(&t).unwrap(), a.length(&t));
-    a.splice_text(&t, 5, 0, "!").unwrap();
-    a.commit();
-    println!("conflicted at h: text_at={:?} length_at={}", a.text_at(&t, &h).unwrap(), a.length_at(&t, &h));
 }
